@@ -31,7 +31,7 @@ type c05Result struct {
 	ReadErr    [2]string
 	Took       time.Duration
 	ReadSizes  [2][]int // sizes returned by the successive Read calls of server / client
-	Plaintext  string // non-empty: a plaintext window or the auth payload was seen by the relay
+	Plaintext  string   // non-empty: a plaintext window or the auth payload was seen by the relay
 	RelayMsgs  int
 }
 
@@ -196,8 +196,8 @@ func TestC05(t *testing.T) {
 	}
 	for i := 0; i < pick(12, 64); i++ {
 		sc := &c05Scenario{Name: fmt.Sprintf("stack-%d", i), Seed: 100 + i,
-			Writes:  [2][]int{sizes(2 + rng.Intn(5)), sizes(1 + rng.Intn(4))},
-			ReadBuf: [2]int{[]int{32768, 40000, 700, 17}[rng.Intn(4)], []int{32768, 65536, 1000}[rng.Intn(3)]},
+			Writes:     [2][]int{sizes(2 + rng.Intn(5)), sizes(1 + rng.Intn(4))},
+			ReadBuf:    [2]int{[]int{32768, 40000, 700, 17}[rng.Intn(4)], []int{32768, 65536, 1000}[rng.Intn(3)]},
 			FaultUntil: time.Duration(4+rng.Intn(8)) * time.Second}
 		switch i % 4 {
 		case 1:
